@@ -1,6 +1,6 @@
 (* C04 — Depth-bounded creation reaches exactly the grammar's bounded language.
    Only statements closed by [exact]; Print Assumptions; non-vacuity example. *)
-From GE Require Import Base Tape Grammar WellTyped Synth Sat Lang DistProofs SynthFrame SynthSat SynthDepth LangProofs GrowComplete.
+From GE Require Import Base Tape Grammar WellTyped Synth Sat Lang DistProofs SynthFrame SynthSat SynthDepth LangProofs GrowComplete DistOk.
 Open Scope Z_scope.
 
 (* "no invalid one is reachable", and "position-independent grow never leaves the bounded language": for EVERY
@@ -19,17 +19,17 @@ Print Assumptions C04_no_invalid_program_reachable.
 
 (* "no valid program is unreachable" (grow): for EVERY finite-choice hierarchy (fc_decl: bool, small integer ranges /
    lists, names, sized lists, unions, tuples, classes; any number of abstract layers, any recursion) in the default
-   depth mode whose analysis assigned a distance to every class and field type (dist_ok, a decidable condition the
-   check evaluates on every grammar it uses), every iteration order and every limit D: every program of the bounded
+   depth mode (that the analysis assigns a distance to every class and field type of a production is itself proved:
+   DistOk.dist_ok_analysed), every iteration order and every limit D: every program of the bounded
    language that contains no empty list is returned by creation under SOME sequence of random decisions, which the
    run consumes exactly, for every large enough fuel.  (Programs with empty lists: known finding F10.) *)
 Theorem C04_grow_reaches_every_program : forall d order g D,
-  extract d order = Ok g -> perm_order order -> d_xdepth d = false -> fc_decl d = true -> dist_ok g = true ->
+  extract d order = Ok g -> perm_order order -> d_xdepth d = false -> fc_decl d = true ->
   forall v, InLang g D v -> noempty v = true ->
   exists tape F, forall fuel, (F <= fuel)%nat ->
     exists st', create_node fuel g (DMax D) (TSym (d_start (g_decl g))) ctx0 [] (st_init g (Native tape)) = (Ok v, st') /\
                 st_src st' = Native [].
-Proof. exact grow_reaches_language. Qed.
+Proof. exact grow_reaches_language_all. Qed.
 Print Assumptions C04_grow_reaches_every_program.
 
 (* the independent enumeration used by the check (Spec/Lang.v, built from the declarations only) lists only
